@@ -4,7 +4,9 @@
     guards of _guards.py, and EnumArray.decode / decode_to_str (enum_array.py).
     Written function by function after the code as it is in /repo now (with the fix
     that makes _int_to_index reject negative values and both encode paths reject
-    members of another enumeration).  No proofs here.
+    members of another enumeration, and the later one -- Enum._has_member -- that also
+    rejects the members of a same-named enumeration that do not designate a member of
+    this one).  No proofs here.
 
     Conventions
     - an enumeration is its identity and the list of its member names in declaration
@@ -17,8 +19,12 @@
       member itself (an [EMem] with that member's index) and an alias NAME given to
       Enum.encode is a string that is not in [names] (rejected like any unknown name).
       The harness declares enumerations with aliases and renders them this way.
-    - a member is (identity of its enumeration, its index): _enum_to_index only reads
-      [member.index], the class check only reads [member.__class__].
+    - two enumeration classes whose __name__ is the same string compare equal: in the
+      model they have the same [eid] (and possibly different [names]).
+    - a member is (identity of its enumeration, its index, its name): _enum_to_index reads
+      [member.index], Enum._has_member reads [member.__class__], [member.index] and
+      [member.name].  The index is a [nat]: Enum.__init__ sets it to
+      len(_member_names_), never a negative number.
     - arrays and sequences are lists; indices are [Z].  The uint8 cast of the index
       array (t.EnumDType) is the identity on 0..255 and is not modelled beyond that
       (enumerations above 256 members are out of scope).
@@ -34,11 +40,12 @@ Record enum := mkEnum { eid : Z; names : list string }.
 
 Definition size (e : enum) : Z := Z.of_nat (length (names e)).
 
-Definition member := (Z * Z)%type.     (* (enumeration identity, index) *)
+(** member.__class__ (as far as == sees it), member.index, member.name *)
+Record member := mkMem { mid : Z; midx : nat; mname : string }.
 
 (** EnumType.__new__: cls.enums = numpy.array(cls) -- the members in declaration order. *)
 Definition members (e : enum) : list member :=
-  map (fun i => (eid e, Z.of_nat i)) (seq 0 (length (names e))).
+  map (fun p => mkMem (eid e) (snd p) (fst p)) (combine (names e) (seq 0 (length (names e)))).
 
 (** An EnumArray: a uint8 index array with the enumeration it is to be read against
     ([possible_values], None on arrays that were not produced by Enum.encode). *)
@@ -94,8 +101,14 @@ Definition all_ints := all_of as_int.      (* _is_int_array_like, and the values
 Definition all_strs := all_of as_str.      (* _is_str_array_like *)
 Definition all_enums := all_of as_enum.    (* _is_enum_array_like *)
 
-(** all(cls == item.__class__ for item in value) *)
-Definition same_class (e : enum) (m : member) : bool := Z.eqb (fst m) (eid e).
+(** Enum._has_member:
+      cls == item.__class__ and item.index < len(cls.names) and cls.names[item.index] == item.name *)
+Definition has_member (e : enum) (m : member) : bool :=
+  Z.eqb (mid m) (eid e) &&
+  match nth_error (names e) (midx m) with
+  | Some s => String.eqb s (mname m)
+  | None => false
+  end.
 
 (** ** _utils.py *)
 
@@ -104,7 +117,7 @@ Definition int_to_index (e : enum) (values : list Z) : list Z :=
   filter (fun v => (0 <=? v) && (v <? size e)) values.
 
 (** _enum_to_index: numpy.array([enum.index for enum in value], uint8) *)
-Definition enum_to_index (value : list member) : list Z := map snd value.
+Definition enum_to_index (value : list member) : list Z := map (fun m => Z.of_nat (midx m)) value.
 
 (** numpy.isin(values, names), element by element *)
 Definition isin (nm : list string) (s : string) : bool := existsb (String.eqb s) nm.
@@ -183,7 +196,7 @@ Definition encode_array_like (e : enum) (value : list elem) : res (list Z) :=
       | None =>
           match all_enums value with
           | Some ms =>
-              if forallb (same_class e) ms then finish (length value) (enum_to_index ms)
+              if forallb (has_member e) ms then finish (length value) (enum_to_index ms)
               else Err EType
           | None => Err EType
           end
@@ -198,9 +211,9 @@ Definition encode_array (e : enum) (value : input) : res (list Z) :=
   | ArrObj l =>
       match all_enums l with
       | Some ms =>
-          if forallb (same_class e) ms then finish (length l) (enum_to_index ms)
+          if forallb (has_member e) ms then finish (length l) (enum_to_index ms)
           else Err EType
-      | None => Err EType      (* cls == item.__class__ fails on a non-member *)
+      | None => Err EType      (* _is_enum_array fails on a non-member *)
       end
   | ArrOther _ => Err EType
   | Seq l => encode_array_like e l       (* not reached from [encode] *)
@@ -249,9 +262,15 @@ Definition decode_to_str (a : enum_array) : res (list string) :=
 
 Definition valid_index (e : enum) (i : Z) : Prop := 0 <= i < size e.
 
-(** the name of a member, when it is a member of [e] *)
-Definition member_name (e : enum) (m : member) : option string :=
-  if Z.eqb (fst m) (eid e) && (0 <=? snd m) then nth_error (names e) (Z.to_nat (snd m)) else None.
+(** [m] designates a member of [e]: it is of [e]'s class (as == sees it) and [e] has a
+    member of that name at that index.  (A member of a same-named enumeration with the
+    same name at the same index cannot be told from [e]'s own: it is that member.) *)
+Definition designates (e : enum) (m : member) : Prop :=
+  mid m = eid e /\ nth_error (names e) (midx m) = Some (mname m).
+
+(** [m] is the member of [e] with index [i] *)
+Definition member_of_index (e : enum) (i : Z) (m : member) : Prop :=
+  designates e m /\ Z.of_nat (midx m) = i.
 
 (** "an array or sequence of indices / of names / of members" *)
 Definition as_ints (x : input) : option (list Z) :=
@@ -265,19 +284,15 @@ Definition as_members (x : input) : option (list member) :=
 Definition input_elems (x : input) : list elem :=
   match x with ArrObj l => l | Seq l => l | _ => [] end.
 
-(** a member object of enumeration [e] carries one of [e]'s indices (true of every
-    object the Python enum machinery creates) *)
-Definition wf_members (e : enum) (x : input) : Prop :=
-  forall m, In (EMem m) (input_elems x) -> fst m = eid e -> valid_index e (snd m).
-
 (** "something that is not a member": unknown name, index outside the range on
-    either side, member of another enumeration, unsupported element type *)
+    either side, member of another enumeration (of another name, or of the same name but
+    not designating a member of [e]), unsupported element type *)
 Definition elem_invalid (e : enum) (x : elem) : Prop :=
   match x with
   | EInt z => z < 0 \/ size e <= z
   | EBool b => size e <= (if b then 1 else 0)
   | EStr s => ~ In s (names e)
-  | EMem m => fst m <> eid e
+  | EMem m => ~ designates e m
   | EOther => True
   end.
 
